@@ -37,6 +37,10 @@ func (w *World) DrawC06Op(t *rapid.T) *Op {
 		return w.DrawC06KVDelete(t)
 	case x < 28:
 		return w.DrawC06Intentions(t)
+	case x < 37:
+		return w.DrawC06Tags(t)
+	case x < 44:
+		return w.DrawC06SessionCheck(t)
 	}
 	return w.DrawOp(t, C06Cfg)
 }
@@ -260,4 +264,130 @@ func (w *World) DrawC06Intentions(t *rapid.T) *Op {
 		return w.DrawOp(t, C06Cfg)
 	}
 	return NewConfig(ConfigSet, w.NextIdx(t), structs.ConfigEntryUpsert, si)
+}
+
+// DrawC06Tags aims at tag-filtered lookups: several instances of one service on different nodes with different tag
+// sets; instances are re-registered with other tags, and tagged instances are deregistered while others remain.
+func (w *World) DrawC06Tags(t *rapid.T) *Op {
+	svc := pick(t, "tagsvc", []string{"web", "web", "web", "db", "db", "api"})
+	want := map[string][]string{"web": {"a"}, "db": {"b"}, "api": {"a", "b"}}[svc] // the tag filter the panel uses for svc
+	_, sns, _ := w.Store.ServiceNodes(nil, svc, nil, "")
+	var matching, others structs.ServiceNodes
+	for _, sn := range sns {
+		all := true
+		for _, tg := range want {
+			has := false
+			for _, x := range sn.ServiceTags {
+				has = has || x == tg
+			}
+			all = all && has
+		}
+		if all {
+			matching = append(matching, sn)
+		} else {
+			others = append(others, sn)
+		}
+	}
+	nonMatching := [][]string{nil, {"c"}}
+	if len(want) == 1 {
+		nonMatching = append(nonMatching, []string{map[string]string{"a": "b", "b": "a"}[want[0]]})
+	} else {
+		nonMatching = append(nonMatching, []string{"a"}, []string{"b"})
+	}
+	register := func(tags []string) *Op {
+		used := map[string]bool{}
+		for _, sn := range sns {
+			used[sn.Node] = true
+		}
+		node := pick(t, "tagnode", Nodes)
+		for _, n := range Nodes { // prefer a node that has no instance of svc yet
+			if !used[n] && chance(t, "freenode", 70) {
+				node = n
+				break
+			}
+		}
+		req := w.c06RegReq(node)
+		req.Service = &structs.NodeService{Service: svc, ID: svc + "-" + pick(t, "taginst", []string{"1", "1", "2"}), Port: 8080, Tags: tags,
+			Weights: &structs.Weights{Passing: 1, Warning: 1}, EnterpriseMeta: defaultEM}
+		return NewRegister(w.NextIdx(t), req)
+	}
+	switch {
+	case len(matching) == 0:
+		return register(want)
+	case len(others) == 0:
+		return register(pick(t, "nonmatching", nonMatching))
+	case chance(t, "emptymatch", 70):
+		// take the tag away from (or deregister) a matching instance: with one matching instance left the filtered
+		// lookup becomes empty while the service lives on
+		sn := pick(t, "matching", matching)
+		if chance(t, "viadereg", 40) {
+			return NewDereg(DeregService, w.NextIdx(t), sn.Node, sn.ServiceID, "")
+		}
+		req := w.c06RegReq(sn.Node)
+		ns := sn.ToNodeService()
+		ns.RaftIndex = structs.RaftIndex{}
+		ns.Tags = pick(t, "nonmatching", nonMatching)
+		req.Service = ns
+		return NewRegister(w.NextIdx(t), req)
+	case chance(t, "more", 50):
+		return register(pick(t, "tagset", [][]string{nil, {"a"}, {"b"}, {"a", "b"}}))
+	}
+	sn := pick(t, "retagother", others)
+	req := w.c06RegReq(sn.Node)
+	ns := sn.ToNodeService()
+	ns.RaftIndex = structs.RaftIndex{}
+	ns.Tags = want
+	req.Service = ns
+	return NewRegister(w.NextIdx(t), req)
+}
+
+// DrawC06SessionCheck aims at checks of type "session": such a check follows the sessions of its node that carry
+// its Definition.SessionName (passing while one is in force, critical when it ends).
+func (w *World) DrawC06SessionCheck(t *rapid.T) *Op {
+	ns := w.LiveNodes("")
+	if len(ns) == 0 {
+		return w.DrawOp(t, C06Cfg)
+	}
+	n := pick(t, "scnode", ns)
+	var sessChecks structs.HealthChecks
+	for _, c := range w.NodeChecks(n.Node, "") {
+		if c.Type == "session" && c.Definition.SessionName != "" {
+			sessChecks = append(sessChecks, c)
+		}
+	}
+	_, sessions, _ := w.Store.NodeSessions(nil, n.Node, nil)
+	k := rapid.IntRange(0, 9).Draw(t, "scop")
+	switch {
+	case k <= 2 || len(sessChecks) == 0: // register a session-type check (node level or on a service of the node)
+		id := pick(t, "sccheck", []string{"c1", "c2", "c3"})
+		c := &structs.HealthCheck{Node: n.Node, CheckID: types.CheckID(id), Name: id, Type: "session", Status: api.HealthCritical, EnterpriseMeta: defaultEM}
+		c.Definition.SessionName = pick(t, "scname", []string{"sa", "sa", "sb"})
+		if svcs := w.NodeServices(n.Node, ""); len(svcs) > 0 && chance(t, "scsvc", 50) {
+			sv := pick(t, "scsvcpick", svcs)
+			c.ServiceID, c.ServiceName = sv.ID, sv.Service
+		}
+		req := w.c06RegReq(n.Node)
+		req.Checks = structs.HealthChecks{c}
+		return NewRegister(w.NextIdx(t), req)
+	case k <= 6 || len(sessions) == 0: // a session with the name one of the checks follows
+		id, ok := w.freshSessionID(t)
+		if !ok {
+			return w.DrawOp(t, C06Cfg)
+		}
+		w.SessUsed[id] = true
+		sess := &structs.Session{ID: id, Node: n.Node, Name: pick(t, "scfollow", sessChecks).Definition.SessionName,
+			Behavior: pick(t, "scbehavior", []structs.SessionBehavior{structs.SessionKeysRelease, structs.SessionKeysDelete}), EnterpriseMeta: defaultEM}
+		return NewSessCreate(w.NextIdx(t), sess)
+	}
+	// end a session of the node (named ones first)
+	var named structs.Sessions
+	for _, s := range sessions {
+		if s.Name != "" {
+			named = append(named, s)
+		}
+	}
+	if len(named) == 0 {
+		named = sessions
+	}
+	return NewSessDestroy(w.NextIdx(t), pick(t, "scend", named).ID)
 }
